@@ -57,7 +57,8 @@ def rule_a(chk, f):
     # the frame loop: the while loop in which a decoded frame is cut off the data (`data = data[offset:]`)
     def consumes(w):
         return any(isinstance(n, ast.Assign) and src(n.targets[0]) == dv and src(n.value).replace(' ', '').startswith(f'{dv}[') for n in walk_no_defs(w))
-    loops = [n for n in g.nodes if n.kind == 'join' and isinstance(n.ast, ast.While) and consumes(n.ast)]
+    loops = [n for n in g.nodes if n.kind == 'join' and isinstance(n.ast, ast.While) and consumes(n.ast)] or \
+        [n for n in g.nodes if n.kind == 'join' and isinstance(n.ast, ast.While) and dv in Q.names_used(n.ast.test)]
     need(loops, 'C17.a: no frame loop (a while loop that cuts decoded frames off the data)')
     head = loops[0]
     # leaving the loop through its condition: either nothing is left (`while data:`) or what is left is stored as carry
